@@ -194,8 +194,23 @@ def d4_labels(ctx):
               f"the label matrix and the batch loop disagree on the number of batches ({detail}): columns no batch fills stay 0 ('clear') and vote in the mode - "
               "on short recordings real faults are out-voted", key="batch-count")
     # column i of channel_labels receives batch i's labels
-    st2 = [n for n in walk_function(fc.node) if isinstance(n, ast.Assign) and isinstance(n.targets[0], ast.Tuple) and "channel_labels" in src(n.targets[0])]
-    okc = bool(st2) and norm(st2[0].targets[0].elts[0]) == norm(ast.parse("channel_labels[:, i]", mode="eval").body)
+    want_t = norm(ast.parse("channel_labels[:, i]", mode="eval").body)
+    st2 = []
+    okc = False
+    for n in walk_function(fc.node):
+        if not isinstance(n, ast.Assign):
+            continue
+        t0 = n.targets[0]
+        if isinstance(t0, ast.Tuple) and "channel_labels" in src(t0):
+            # channel_labels[:, i], feats = detect_bad_channels(..)
+            st2.append(n)
+            okc = norm(t0.elts[0]) == want_t and isinstance(n.value, ast.Call) and repo.resolve_call(fc, n.value) == "ibldsp.voltage.detect_bad_channels"
+        elif isinstance(t0, ast.Subscript) and loc_name(t0.value) == "channel_labels":
+            # labels, feats = detect_bad_channels(..) ; channel_labels[:, i] = labels
+            st2.append(n)
+            ds = duc.strong_reaching(loc_name(n.value), n) if loc_name(n.value) else []
+            okc = norm(t0) == want_t and len(ds) == 1 and ds[0].unpack_index == 0 and isinstance(ds[0].stmt, ast.Assign) \
+                and isinstance(ds[0].stmt.value, ast.Call) and repo.resolve_call(fc, ds[0].stmt.value) == "ibldsp.voltage.detect_bad_channels"
     ctx.check(okc, fc, st2[0] if st2 else fc.node, st2[0] if st2 else "channel_labels[:, i]", "each batch fills its own column", "batch labels are not stored one column per batch", key="batch-col")
 
 
